@@ -188,4 +188,7 @@ def obligations(tier, rng):
     f = ('or', ('always', X), ('until', X, Y))
     add('unless-sugar', f, 'out = ' + text(f), 'out = (x) unless (y)')
     seen = set()
-    return [o for o in out if not (o['oid'] in seen or seen.add(o['oid']))]
+    res_ = [o for o in out if not (o['oid'] in seen or seen.add(o['oid']))]
+    from .. import core as _core
+    res_ = res_ + _core.make_twins(res_, [('alias/out = O [1,2] (x)', 'window'), ('precedence/out = x and y or z', 'minmax'), ('alias/out = Y (x)', 'pad')]) + _core.make_forkmode(res_, [])
+    return res_
